@@ -611,7 +611,20 @@ func pJudge(p *pPlan, in *pInput, data []byte) (v pVerdict) {
 		v.bad = fmt.Sprintf("the file cannot be read back: %v", err)
 		return v
 	}
+	// positions in the reference file (written in the order of the
+	// specification) -> indexes of the input rows
+	var specFlat []int
+	for _, g := range spec {
+		specFlat = append(specFlat, g...)
+	}
 	v.ids = pIdentify(got, refFlat)
+	for _, g := range v.ids {
+		for i, pos := range g {
+			if pos >= 0 && pos < len(specFlat) {
+				g[i] = specFlat[pos]
+			}
+		}
+	}
 	for _, g := range got {
 		v.nrows += len(g)
 	}
@@ -719,7 +732,7 @@ func pShrink(p pPlan) pPlan {
 
 func genPlan(rng *rand.Rand, scale int) pPlan {
 	p := pPlan{Flavour: "gen", API: []string{"generic", "writer"}[rng.Intn(2)]}
-	if rng.Intn(3) == 0 {
+	if rng.Intn(2) == 0 {
 		p.Flavour = "struct"
 		p.Salt = rng.Int63()
 		p.PageBuf = 64 + rng.Intn(400)
@@ -875,8 +888,67 @@ func pRun(p *pPlan, out *scenOut, shrink bool) {
 	}
 }
 
+// pCorpus enumerates the small programs "[A(3)] [B(2)] fill(rg0,4) commit(rg0)
+// [C(2)]" for every choice of A and B among the ways of filling the parent
+// writer (and none), with and without a further write C after the Commit, on
+// both writer APIs of both flavours: every ordered mixture of two write paths
+// pending before a Commit.
+func pCorpus(rng *rand.Rand) (plans []pPlan) {
+	cheap := []string{"none", "snappy", "lz4"} // the corpus is about the order of calls, not about codecs
+	cs := gen.Case{Seed: rng.Int63(), MaxDepth: 1, MaxFields: 3, Codecs: cheap, NullBias: 2}
+	salt := rng.Int63()
+	k := 0
+	for _, flavour := range []string{"struct", "gen"} {
+		ops := []string{"", "rows", "cols", "typed"}
+		if flavour == "gen" {
+			ops = ops[:3]
+		}
+		for _, api := range []string{"generic", "writer"} {
+			for _, a := range ops {
+				for _, b := range ops {
+					for _, c := range []string{"", ops[1+k%(len(ops)-1)]} {
+						p := pPlan{Flavour: flavour, API: api}
+						if flavour == "struct" {
+							p.Salt, p.PageBuf, p.Codec, p.Version = salt, []int{64, 4096}[k%2], cheap[k%len(cheap)], 1+k/2%2
+						} else {
+							p.Case = cs
+						}
+						if a != "" {
+							p.Steps = append(p.Steps, pStep{Op: a, N: 3})
+						}
+						if b != "" {
+							p.Steps = append(p.Steps, pStep{Op: b, N: 2})
+						}
+						p.Steps = append(p.Steps, pStep{Op: "fill", N: 4, ByCols: k%3 == 0}, pStep{Op: "commit"})
+						if c != "" {
+							p.Steps = append(p.Steps, pStep{Op: c, N: 2})
+						}
+						plans = append(plans, p)
+						k++
+					}
+				}
+			}
+		}
+	}
+	return plans
+}
+
 func scenPending(rng *rand.Rand, p, scale int) *scenOut {
 	out := &scenOut{}
+	corpus := pCorpus(rng)
+	if scale == 0 { // race child: a sample
+		rng.Shuffle(len(corpus), func(i, j int) { corpus[i], corpus[j] = corpus[j], corpus[i] })
+		corpus = corpus[:24]
+	}
+	for i := range corpus {
+		pRun(&corpus[i], out, true)
+		if len(out.fails) > 0 {
+			return out
+		}
+	}
+	if len(out.asks) > 12 { // the model is asked about a sample of the corpus
+		out.asks = out.asks[:12]
+	}
 	n := []int{3, 6, 12}[scale]
 	for it := 0; it < n; it++ {
 		plan := genPlan(rng, scale)
